@@ -111,14 +111,14 @@ func genC20(tier string, r *rng, emit func(string)) {
 		for _, la := range lays {
 			for _, lb := range lays {
 				for _, sh := range [][]int{{2, 3}, {4}, {2, 2, 2}} {
-					for _, mode := range []string{"safe", "unsafe", "reuse", "incr"} {
+					for _, mode := range []string{"safe", "unsafe", "reuse", "incr", "ur"} {
 						var p pb
 						preA, ia := source(r, la, sh, 5)
 						a := p.add(preA, ia)
 						preB, ib := source(r, lb, sh, 1)
 						b := p.add(preB, ib)
 						m := mode
-						if mode == "reuse" || mode == "incr" {
+						if mode == "reuse" || mode == "incr" || mode == "ur" {
 							preR, ir := source(r, "rm", sh, 50)
 							rr := p.add(preR, ir)
 							m = fmt.Sprintf("%s.%d", mode, rr)
